@@ -237,7 +237,9 @@ def make_cases(ctx):
                      "cv_by_ee_key", "dc_signed_by_other"):
             yield "dc-%s-%s-%s" % (ee, dc, what), dict(
                 site="dc", cls=what, ee=ee, dc=dc)
-    for what in ("honest", "wrong_fp", "no_chain", "psk_with_checker"):
+    for what in ("honest", "wrong_fp", "no_chain", "psk_with_checker",
+                 "honest_chain2", "pinned_cert_not_first",
+                 "pinned_cert_not_first_ed"):
         for ver in ((3, 3), (3, 4), (3, 1)):
             yield "checker-%s-%d" % (what, ver[1]), dict(
                 site="checker", cls=what, ver=ver)
@@ -898,12 +900,31 @@ def run_checker(ctx, cid, P):
         kind = "psk"
     fl = Flavor(kind, skey="rsa", cset=cs, sset=ss, checker_c=chk,
                 session_cache=cache)
+    if cls in ("honest_chain2", "pinned_cert_not_first",
+               "pinned_cert_not_first_ed"):
+        # chains of two certificates: the identity a Checker looks at is the
+        # end-entity certificate, the one whose key made the proof
+        from tlslite.x509certchain import X509CertChain
+        other = {"honest_chain2": "ecdsa256",
+                 "pinned_cert_not_first": "ecdsa256",
+                 "pinned_cert_not_first_ed": "ed25519"}[cls]
+        if cls == "pinned_cert_not_first_ed" and ver < (3, 3):
+            return
+        ochain, okey = creds.server(other)
+        if cls == "honest_chain2":
+            two, k2 = [chain.x509List[0], ochain.x509List[0]], key_
+        else:
+            # the impostor holds only its own key and appends the pinned
+            # certificate to its chain
+            two, k2 = [ochain.x509List[0], chain.x509List[0]], okey
+        fl.skey = other if cls != "honest_chain2" else "rsa"
+        fl.server_kw = dict(certChain=X509CertChain(two), privateKey=k2)
     p = Pair()
     tc, ts = p.handshake(fl)
     ctx.ev()
     key = {"site": "checker", "class": cls, "ver": pair.VNAME[ver]}
     W = {"case": cid, "outcome": [outcome(tc), outcome(ts)]}
-    if cls == "honest":
+    if cls in ("honest", "honest_chain2"):
         if tc.status != "done":
             ctx.violation(dict(key, clause="honest_rejected"), W, repr(tc.exc))
         else:
